@@ -28,6 +28,9 @@ pub enum RecSpec {
     /// synthetic lint record
     Synthetic { kind: u8, context: Vec<TokSpec> },
     Config(ConfigSpec),
+    /// a configuration as it arrives from a client: rule -> true / false / null (unset but
+    /// mentioned); unknown names included
+    ConfigJson(Vec<(String, Option<bool>)>),
 }
 
 #[derive(Debug, Clone, Serialize, Deserialize, PartialEq, Eq, Hash)]
@@ -106,6 +109,13 @@ fn build_records(specs: &[RecSpec], when: i64, uuid_seed: &mut u64) -> Vec<Recor
                 );
             }
             RecSpec::Config(c) => mk(RecordKind::LintConfigUpdate(c.build()), &mut out),
+            RecSpec::ConfigJson(entries) => {
+                let map: serde_json::Map<String, Value> =
+                    entries.iter().map(|(k, v)| (k.clone(), v.map(Value::Bool).unwrap_or(Value::Null))).collect();
+                if let Ok(cfg) = serde_json::from_value(Value::Object(map)) {
+                    mk(RecordKind::LintConfigUpdate(cfg), &mut out);
+                }
+            }
         }
     }
     out
@@ -147,6 +157,10 @@ pub fn test_stats(c: &StatsCase, ctx: &mut CaseCtx) -> Result<(), String> {
     ctx.class_if(weird, "linebreak_or_control_in_context");
     ctx.class_if(sessions.len() >= 2, "multi_session");
     ctx.class_if(all.iter().any(|r| matches!(r.kind, RecordKind::LintConfigUpdate(_))), "has_config_record");
+    ctx.class_if(
+        c.sessions.iter().flatten().any(|r| matches!(r, RecSpec::ConfigJson(e) if e.iter().any(|(_, v)| v.is_none()))),
+        "config_record_with_null_entry",
+    );
     ctx.class_if(all.is_empty(), "empty");
     ctx.class_if(all.len() >= 5, "records>=5");
     if weird && sessions.len() >= 2 {
@@ -291,6 +305,7 @@ fn rec_spec() -> BoxedStrategy<RecSpec> {
         3 => (0u8..10, proptest::collection::vec(tok_spec(), 0..5)).prop_map(|(kind, context)| RecSpec::Synthetic { kind, context }),
         1 => (g::sentence(), any::<bool>()).prop_map(|(text, markdown)| RecSpec::DocLints { text, markdown }),
         1 => g::config_spec().prop_map(RecSpec::Config),
+        1 => proptest::collection::vec((prop_oneof![4 => g::rule_key(), 1 => g::sel_str(&["NoSuchRule", "", "😀"])], prop_oneof![Just(Some(true)), Just(Some(false)), Just(None)]), 0..6).prop_map(RecSpec::ConfigJson),
     ]
     .boxed()
 }
@@ -440,7 +455,7 @@ pub fn test_ls_stats(c: &LsStatsCase, ctx: &mut CaseCtx) -> Result<(), String> {
 }
 
 pub fn run(run: &mut Run) {
-    run.rule = "histories of 1-4 append sessions of 0-4 record specs: synthetic lint records whose context tokens are arbitrary-Unicode Unlintable tokens (newline, CR, U+2028/2029, NEL, quotes, backslashes, controls, astral) or the real tokens harper lexes from generated words/sentences/number literals; all lints of a generated document via RecordKind::from_lint; configuration-update records from G-CONFIG; arbitrary timestamps (a later session may carry older ones) and uuids. The same sessions are also imported one by one into a harper.js Linter (import_stats_file) whose generate_stats_file must read back as the concatenation. Oracle: exactly one line feed per record, read(write(a)++write(b)) == a++b, write is a homomorphism over concatenation, summary = reference fold. Non-trivial = a context contains a line-break-like or control char and there are >=2 sessions; distinct by case.".into();
+    run.rule = "histories of 1-4 append sessions of 0-4 record specs: synthetic lint records whose context tokens are arbitrary-Unicode Unlintable tokens (newline, CR, U+2028/2029, NEL, quotes, backslashes, controls, astral) or the real tokens harper lexes from generated words/sentences/number literals; all lints of a generated document via RecordKind::from_lint; configuration-update records from G-CONFIG and from client-style JSON (true / false / null entries, unknown names); arbitrary timestamps (a later session may carry older ones) and uuids. The same sessions are also imported one by one into a harper.js Linter (import_stats_file) whose generate_stats_file must read back as the concatenation. Oracle: exactly one line feed per record, read(write(a)++write(b)) == a++b, write is a homomorphism over concatenation, summary = reference fold. Non-trivial = a context contains a line-break-like or control char and there are >=2 sessions; distinct by case.".into();
     if !run.strict && run.known.get(KF_NONFINITE).is_some() {
         let c = StatsCase {
             sessions: vec![vec![RecSpec::DocLints {
@@ -458,6 +473,7 @@ pub fn run(run: &mut Run) {
     run.require_class("append_sessions", "linebreak_or_control_in_context", (n / 4) as u64);
     run.require_class("append_sessions", "multi_session", (n / 3) as u64);
     run.require_class("append_sessions", "has_config_record", (n / 5) as u64);
+    run.require_class("append_sessions", "config_record_with_null_entry", (n / 20) as u64);
     run.require_class("append_sessions", "later_session_has_older_time_stamps", (n / 10) as u64);
     run.require_class("append_sessions", "empty_session_among_others", (n / 20) as u64);
 
